@@ -340,49 +340,75 @@ def check_groups(ctx, db):
     ctx.require('R-AGG group cases interpreted', total, 5000)
 
 
-def check_measures(ctx, db):
-    a, s, p = db.fn('gdstk::Polygon::area'), db.fn('gdstk::Polygon::signed_area'), db.fn('gdstk::Polygon::perimeter')
-    for f in (a, s, p):
-        ctx.touch(f)
-        first = [x for x in f.body.c if x is not None][0]
-        ok = first.k == 'IfStmt' and norm(first.child('cond').text()) == '(this->point_array.count < 3)' and norm(first.child('then').text()) == 'return 0'
-        reads = [m for m in f.walk() if m.k == 'MemberExpr' and m.n == 'items' and m.pos < first.pos]
-        ctx.check(ok and not reads, 'R-SHAPE', '%s/below-three' % f.qn.replace('gdstk::', ''), f.loc(), 'fewer than three vertices give 0 before any vertex is read')
-    la = next(l for l in a.walk() if l.k == 'ForStmt')
-    ls = next(l for l in s.walk() if l.k == 'ForStmt')
-    pre_a = ''.join(clone.canon(x, a) for x in a.body.c[1:] if x is not None and x.pos <= la.pos)
-    pre_s = ''.join(clone.canon(x, s) for x in s.body.c[1:] if x is not None and x.pos <= ls.pos)
-    clone.check_family(ctx, 'R-CLONE', 'shoelace', [('Polygon::area', a.loc(), pre_a), ('Polygon::signed_area', s.loc(), pre_s)], 2)
-    ra = [x for x in a.walk() if x.k == 'ReturnStmt'][-1]
-    rs = [x for x in s.walk() if x.k == 'ReturnStmt'][-1]
-    ok = re.match(r'^\(0\.5 \* fabs\(v\d+\)\)$|^\(0\.5 \* fabs\(result\)\)$', norm(ra.child('value').text())) is not None and norm(rs.child('value').text()) == '(0.5 * result)'
-    ctx.check(ok, 'R-SHAPE', 'Polygon::area/half-magnitude', a.loc(), 'area = 0.5 |sum|, signed_area = 0.5 sum')
+def measure_model(db, qn, pts, rep_count):
+    """one of Polygon::area / signed_area / perimeter interpreted (sa/minieval) on a polygon with integer vertices, with or
+    without a repetition (`rep_count` copies; None: no repetition)."""
+    import math
+    from .. import minieval as M
+    f = db.fn(qn)
+    en = {c['n']: c['v'] for c in db.enum('gdstk::RepetitionType')['consts']}
+    other = next(v for k_, v in en.items() if k_ != 'None')
+    lst = [M.Obj(x=float(x), y=float(y)) for x, y in pts]
+    this = M.Obj(point_array=M.Obj(items=M.Ptr(lst, 0), count=len(lst), capacity=len(lst)),
+                 repetition=M.Obj(type=en['None'] if rep_count is None else other))
+    ref = [None]
 
-    def rep_mult(f):
-        return [x for x in f.walk() if x.k == 'CompoundAssignOperator' and x.op == '*=' and 'get_count' in x.child('rhs').text() and
-                any(i.k == 'IfStmt' and norm(i.child('cond').text()) == '(this->repetition.type != RepetitionType::None)' for i in x.ancestors())]
-    ctx.check(len(rep_mult(a)) == 1 and len(rep_mult(p)) == 1 and not rep_mult(s) and 'repetition' not in norm(clone.canon(s.body, s)), 'R-DEP', 'measures/repetition-factor', a.loc(),
-              'area and perimeter are multiplied by the repetition count; signed_area is not')
-    # the factor multiplies the complete sum: no accumulation into the same variable is reachable after the multiplication
-    for f in (a, p):
-        g = f.cfg
-        for x in rep_mult(f):
-            key = lvalue_key(_strip_casts(x.child('lhs')))
-            accs = [y for y in f.walk() if y.k == 'CompoundAssignOperator' and y.op in ('+=', '-=') and lvalue_key(_strip_casts(y.child('lhs'))) == key]
-            wx = g.where_node(x)
-            late = None
-            for y in accs:
-                wy = g.where_node(y)
-                if wx is None or wy is None:
-                    raise AnalysisBroken('%s: statement not located in the CFG' % f.qn)
-                if g.path_avoiding(wx, lambda b, i, nid, wy=wy: (b, i) == wy, lambda b, i, nid: False):
-                    late = y
-                    break
-            ctx.check(late is None and bool(accs), 'R-ORDER', '%s/factor-after-sum' % f.qn.replace('gdstk::', ''), x.loc(), 'the repetition count multiplies the finished sum (%d accumulation sites, none reachable after the multiplication)' % len(accs),
-                      'a term is still added at %s after the sum was multiplied by the repetition count: that term is counted once instead of once per copy' % (late.loc() if late is not None else '?'))
-    t = norm(clone.canon(p.body, p))
-    ok = re.search(r'for \(uint64_t v\d+ = \(this->point_array\.count - 1\); \(v\d+ > 0\); \(v\d+--\)\)', t) is not None and '(this->point_array.items[0] - this->point_array.items[(this->point_array.count - 1)]).length()' in t
-    ctx.check(ok, 'R-SHAPE', 'Polygon::perimeter/closed', p.loc(), 'count-1 consecutive edges plus the closing edge from the last to the first vertex')
+    def extra(callee, args, node):
+        c = callee or ''
+        short = c.split('::')[-1]
+        if short in ('fabs', 'sqrt', 'abs', 'hypot') and len(c.split('::')) <= 2:
+            return (getattr(math, 'fabs' if short == 'abs' else short)(*[float(a_) for a_ in args]),)
+        if short == 'get_count' and 'Repetition' in c:
+            if rep_count is None:
+                raise M.OutOfBounds('the count of a repetition of type None is asked for at %s' % node.loc())
+            return (rep_count,)
+        return None
+    mi = M.Mini(db, hook=M.array_hook(ref, extra), budget=50000, c_ints=True)
+    mi.obj_store = True
+    mi.ieee = True
+    ref[0] = mi
+    try:
+        mi.run(f.body, {'this': this})
+    except M.Return as r:
+        return r.v
+    return None
+
+
+def check_measures(ctx, db):
+    """R-MODEL.measures: area, signed_area and perimeter interpreted on polygons of 0 to 6 integer vertices (empty, one point, a
+    segment, triangles of both orientations, a 3-4-5 triangle far from the origin, rectangles, an L, a bow tie, a polygon with a
+    repeated vertex), without a repetition and with 6 copies. Required: fewer than three vertices give 0 and no vertex is read
+    beyond the array; signed_area = 1/2 sum (x_i y_i+1 - x_i+1 y_i); area = its magnitude times the number of copies; perimeter =
+    the sum of all edge lengths including the closing edge, times the number of copies; signed_area ignores the repetition.
+    All coordinates and edge lengths are small integers, so IEEE arithmetic is exact here."""
+    import math
+    from ..minieval import OutOfBounds
+    polys = [[], [(3, 4)], [(0, 0), (3, 4)], [(0, 0), (4, 0), (0, 3)], [(0, 0), (0, 3), (4, 0)], [(1000, 2000), (1004, 2000), (1004, 2003)],
+             [(0, 0), (6, 0), (6, 8), (0, 8)], [(-3, -4), (-3, 4), (3, 4), (3, -4)], [(0, 0), (8, 0), (8, 3), (4, 3), (4, 6), (0, 6)],
+             [(0, 0), (4, 3), (4, 0), (0, 3)], [(0, 0), (4, 0), (4, 0), (4, 3)], [(0, 0), (4, 0), (4, 3), (0, 0)]]
+    n = 0
+    for qn in ('gdstk::Polygon::area', 'gdstk::Polygon::signed_area', 'gdstk::Polygon::perimeter'):
+        f = db.fn(qn)
+        ctx.touch(f)
+        bad = []
+        for pts in polys:
+            for rc in (None, 6):
+                n += 1
+                k = len(pts)
+                sh = sum(pts[i][0] * pts[(i + 1) % k][1] - pts[(i + 1) % k][0] * pts[i][1] for i in range(k)) / 2.0 if k >= 3 else 0.0
+                per = sum(math.hypot(pts[(i + 1) % k][0] - pts[i][0], pts[(i + 1) % k][1] - pts[i][1]) for i in range(k)) if k >= 3 else 0.0
+                mult = 1 if rc is None else rc
+                want = {'area': abs(sh) * mult, 'signed_area': sh, 'perimeter': per * mult}[qn.split('::')[-1]]
+                try:
+                    got = measure_model(db, qn, pts, rc)
+                except OutOfBounds as ex:
+                    got = 'fault: %s' % ex
+                if not (isinstance(got, (int, float)) and float(got) == float(want)) and len(bad) < 3:
+                    bad.append('polygon %s%s: returns %s, expected %s' % (pts, '' if rc is None else ' with %d copies' % rc, got, want))
+        ctx.check(not bad, 'R-MODEL.measures', qn.replace('gdstk::', '') + '/value', f.loc(),
+                  'interpreted on %d polygons x {no repetition, 6 copies}: the shoelace sum / edge-length sum with the closing edge, times the copies where documented, 0 below three vertices' % len(polys), '; '.join(bad))
+    ctx.explored['valuations'] += n
+    ctx.require('R-MODEL.measures cases', n, 72)
 
 
 def check_translation_invariance(ctx, db):
